@@ -118,7 +118,9 @@ Definition judge_tables (tag : string) (t : utree) (gerr : string) (o : sexp) : 
           (x <- get "edges" o ;; dec_list dec_grow x) with
     | Some gt, Some ge =>
       let all := ssort (leaves t) in
-      let orc := first_some [
+      (* a root with a single neighbour is a tip for the Go tip index but not a leaf of the
+         rooted structure: outside the property (root degree >= 2), correspondence only *)
+      let orc := if Nat.ltb (degree t) 2 then None else first_some [
         (if Nat.eqb (length ge) (length (edges t)) then None else Some "number of branches");
         first_diff (oracle_row all) 0 (edges t) ge;
         first_some (map (oracle_tip all) gt) ] in
@@ -129,7 +131,7 @@ Definition judge_tables (tag : string) (t : utree) (gerr : string) (o : sexp) : 
            first_diff (fun a b => if Nat.eqb a (snd b) then None else Some "tip id") 0 (tb_tipids tb) gt;
            first_diff row_diff 0 (tb_rows tb) ge ] with
         | Some m => VCorr m
-        | None => VOk true tag
+        | None => if Nat.ltb (degree t) 2 then VOk false (tag ++ ":roottip") else VOk true tag
         end
       end
     | _, _ => VBad "undecodable tables"
@@ -140,10 +142,7 @@ Definition judge_index (c o : sexp) : verdict :=
   match get_tree "tree" c, get_string "panic" o with
   | None, _ => VBad "no tree"
   | Some t, Some p =>
-    match index_tables t with
-    | Err m => if String.eqb m "panic" then VOk false "index:panic" else VCorr ("implementation panics: " ++ p)
-    | Ok _ => VCorr ("implementation panics: " ++ p)
-    end
+    VCorr ("implementation panics: " ++ p)
   | Some t, None =>
     match get_string "err" o with
     | None => VBad "no err"
@@ -357,8 +356,7 @@ Definition judge_map {K} (tag : string) (khash : K -> N) (keqb kspec : K -> K ->
       match get_string "panic" o with
       | Some p =>
         match model with
-        | None => if N.eqb cap 0 then VOracle ("the map panics with initial capacity 0: " ++ p)
-                  else VOracle ("the map panics: " ++ p)
+        | None => VOracle ("the map panics: " ++ p)
         | Some _ => VCorr ("implementation panics: " ++ p)
         end
       | None =>
@@ -580,8 +578,7 @@ Definition judge_edgeindex (c o : sexp) : verdict :=
         match get_string "panic" o with
         | Some p =>
           match model with
-          | None => if N.eqb cap 0 then VOracle ("the index panics with initial capacity 0: " ++ p)
-                    else VOracle ("the index panics: " ++ p)
+          | None => VOracle ("the index panics: " ++ p)
           | Some _ => VCorr ("implementation panics: " ++ p)
           end
         | None =>
